@@ -5,63 +5,7 @@ import sym
 from facts import op_local
 
 
-class ReachingDefs:
-    """definitions are the entries of body.defs()[local]; whole-local assigns/calls kill, partial
-    writes only generate. `entry` (None) stands for the value on function entry (parameter or
-    uninitialised)."""
-
-    def __init__(self, body, local):
-        self.b = body
-        self.local = local
-        self.defs = list(body.defs().get(local, []))
-        self.by_bb = {}
-        for i, d in enumerate(self.defs):
-            self.by_bb.setdefault(d[0], []).append((d[1], i, d[2]))
-        for k in self.by_bb:
-            self.by_bb[k].sort(key=lambda x: (10 ** 9 if x[0] == "t" else x[0]))
-        self.inn = None
-
-    def _transfer(self, bb, s):
-        for idx, i, kind in self.by_bb.get(bb, []):
-            if kind in ("assign", "call"):
-                s = {i}
-            else:
-                s = s | {i}
-        return s
-
-    def solve(self):
-        if self.inn is not None:
-            return
-        b = self.b
-        inn = {0: {None}}
-        work = [0]
-        while work:
-            bb = work.pop()
-            out = self._transfer(bb, set(inn.get(bb, set())))
-            for s in b.succs(bb):
-                cur = inn.get(s)
-                if cur is None:
-                    inn[s] = set(out)
-                    work.append(s)
-                elif not out <= cur:
-                    cur |= out
-                    work.append(s)
-        self.inn = inn
-
-    def at(self, bb, idx):
-        """definitions reaching the point just before statement idx ('t' = the terminator) of bb"""
-        self.solve()
-        s = set(self.inn.get(bb, set()))
-        lim = 10 ** 9 if idx == "t" else idx
-        for sidx, i, kind in self.by_bb.get(bb, []):
-            pos = 10 ** 9 if sidx == "t" else sidx
-            if pos >= lim:
-                break
-            if kind in ("assign", "call"):
-                s = {i}
-            else:
-                s = s | {i}
-        return [(None if i is None else self.defs[i]) for i in s]
+from facts import ReachingDefs  # noqa: E402,F401
 
 
 def def_term(body, prov, d):
@@ -94,6 +38,22 @@ def sources(body, prov, term, at, depth=0, seen=None):
     if t[0] != "local" or depth > 6:
         return [t]
     l = t[1]
+    if len(t) > 3 and t[3] and t[3][0] in ("phi", "entry"):
+        t = ("local", l)
+    if len(t) > 3 and t[3] and t[3][0] == "d":
+        # versioned snapshot: exactly the definition at (bb, idx)
+        for d in body.defs().get(l, []):
+            if d[0] == t[3][1] and str(d[1]) == t[3][2]:
+                dt = sym.strip(def_term(body, prov, d))
+                if dt[0] == "local":
+                    return sources(body, prov, dt, (d[0], d[1]), depth + 1, seen)
+                return [(dt, d)]
+    sd = body.single_def(l)
+    if sd is not None and sd[2] == "assign" and sd[3]["rv"]["k"] == "use":
+        o = sd[3]["rv"]["op"]
+        if o["k"] in ("copy", "move") and not o["p"]["p"] and o["p"]["l"] != l:
+            # an unversioned snapshot temp: expand the copied local at the copy
+            return sources(body, prov, ("local", o["p"]["l"]), (sd[0], sd[1]), depth + 1, seen)
     if (l, at) in seen:
         return []
     seen = seen | {(l, at)}
